@@ -49,7 +49,7 @@ impl Log {
         {
             let mut g = self.inner.lock().unwrap();
             i = g.lines.len();
-            v["t"] = json!(self.now_ms().round() as u64);
+            v["t"] = json!(self.now_ms().ceil() as u64);
             g.lines.push(v);
         }
         self.notify.notify_waiters();
